@@ -265,10 +265,10 @@ def cubic(h, r, c0, b=0.0):
     a = r / 1.
 
     if h < r:
-        return b + c0 * ((7 * (h ** 2 / a ** 2)) -
-                         ((35 / 4) * (h ** 3 / a ** 3)) +
-                         ((7 / 2) * (h ** 5 / a ** 5)) -
-                         ((3 / 4) * (h ** 7 / a ** 7)))
+        return b + c0 * ((7 * ((h / a) ** 2)) -
+                         ((35 / 4) * ((h / a) ** 3)) +
+                         ((7 / 2) * ((h / a) ** 5)) -
+                         ((3 / 4) * ((h / a) ** 7)))
     else:
         return b + c0
 
